@@ -463,8 +463,10 @@ def _families(tier):
     fam["atoms_null"] = _atoms_null(full)
     fam["atoms_str"] = _atoms_str(full)
     sm = _small(full)
-    fam["and2"] = [("and", (a, b)) for a in sm for b in sm]
-    fam["or2"] = [("or", (a, b)) for a in sm for b in sm]
+    # (a `/` atom next to a string atom is left out: value-by-value integers times the string paths, ~1 CPU-minute a shape)
+    pairs = [(a, b) for a in sm for b in sm if not ((has_div(a) or has_div(b)) and "s" in uses(a) | uses(b))]
+    fam["and2"] = [("and", (a, b)) for a, b in pairs]
+    fam["or2"] = [("or", (a, b)) for a, b in pairs]
     core = sm[:5] if q else sm[:8]
     fam["null_of_and2"] = [(k, (c, (a, b))) for k in ("isnull", "notnull") for c in ("and", "or") for a in core for b in core]
     if not q:
@@ -789,7 +791,7 @@ META = {
 def harnesses(tier: str) -> List[Harness]:
     q = tier == "quick"
     vmax, smax, alpha = (3, 2, "ab%") if q else (5, 2, "ab%_/")
-    chunk = 12 if q else 24
+    chunk = 12
     sl = []
     for name in _families(tier):
         n = len(_family(tier, name))
